@@ -350,6 +350,35 @@ func scenarioC09(x *runner.X) {
 		call := stamp()
 		l := multi.GetEpochNumbers()
 		record(99, c09setOp{kind: "list", epoch: 40}, call, c09setOut{list: l})
+		// ... and served: once the operators are done, every loaded epoch (also one that was hot
+		// loaded or replaced) answers for its own transactions and address histories, and an epoch
+		// that is gone does not. Per-request caches that survived the changes show up here.
+		inFinal := map[uint64]bool{}
+		for _, e := range l {
+			inFinal[e] = true
+		}
+		for i := 0; i < c09Epochs && !x.Failed(); i++ {
+			w := worlds[i].w
+			tx := w.Txs[len(w.Txs)/2]
+			_, body := jsonRPC(handler, "getTransaction", []any{tx.Sig().String(), map[string]any{"encoding": "base64", "maxSupportedTransactionVersion": 0}})
+			served := bytes.Contains(body, []byte(`"slot":`+fmt.Sprint(tx.Slot))) && !bytes.Contains(body, []byte(`"error"`))
+			if inFinal[w.Epoch] && !served {
+				x.Failf("oracle", "after the epoch set settled, a loaded epoch does not serve its transactions", "epoch %d (final set %v): getTransaction(%s) -> %s", w.Epoch, l, tx.Sig(), clipB(body))
+			}
+			if !inFinal[w.Epoch] && served {
+				x.Failf("oracle", "after the epoch set settled, a removed epoch still serves transactions", "epoch %d (final set %v)", w.Epoch, l)
+			}
+			if inFinal[w.Epoch] {
+				a := w.Addresses[len(w.Addresses)/2]
+				_, body := jsonRPC(handler, "getSignaturesForAddress", []any{a.String(), map[string]any{"limit": 1000}})
+				for _, htx := range w.ByAddress[a] {
+					if !bytes.Contains(body, []byte(htx.Sig().String())) {
+						x.Failf("oracle", "after the epoch set settled, an address history misses the transactions of a loaded epoch", "epoch %d (final set %v): getSignaturesForAddress(%s) lacks %s: %s", w.Epoch, l, a, htx.Sig(), clipB(body))
+						break
+					}
+				}
+			}
+		}
 	})
 	if x.Failed() {
 		return
